@@ -68,6 +68,37 @@ def tensorDiagStep (acc : Bool) (n cols resSize : Nat) (tmp : Col) (st : List Co
     else if acc then mulUpdCol st (colI + j) (fun r => vecSubAssignW w64 r tmp)
     else mulUpdCol st (colI + j) (fun _ => vecNegate n resSize tmp)) st
 
+/-- the two loops of `glwe_tensor_apply` / `_add_assign` over the normalised diagonal products `D i`
+(`cnv_apply_dft(i, i)` + normalise) and pairwise products `P i j` (`cnv_pairwise_apply_dft(i, j)` + normalise) -/
+def tensorApplyCore (acc : Bool) (n cols resSize : Nat) (D : Nat → Option Col) (P : Nat → Nat → Option Col)
+    (res0 : List Col) : Option (List Col) :=
+  let st1 := (List.range cols).foldl (fun (st : Option (List Col)) i =>
+    st.bind (fun st => (D i).map (fun tmp => tensorDiagStep acc n cols resSize tmp st i))) (some res0)
+  (List.range cols).foldl (fun (st : Option (List Col)) i =>
+    (List.range cols).foldl (fun (st : Option (List Col)) j =>
+      if i < j then
+        st.bind (fun st =>
+          (P i j).map (fun tmp => mulUpdCol st (colIdx cols i 0 + j) (fun r => vecAddAssignW w64 r tmp)))
+      else st) st) st1
+
+/-- the loops of `glwe_tensor_square_apply`: `diag_terms`, the copies, then per pair normalise into `res`
+and two `sub_assign` -/
+def tensorSquareCore (n cols resSize : Nat) (D : Nat → Option Col) (P : Nat → Nat → Option Col)
+    (res0 : List Col) : Option (List Col) :=
+  let d := (List.range cols).mapM D
+  d.bind (fun diag =>
+    let st0 := (List.range cols).foldl (fun st i =>
+      mulUpdCol st (colIdx cols i 0 + i) (fun _ => vecCopy n resSize (diag.getD i []))) res0
+    (List.range cols).foldl (fun (st : Option (List Col)) i =>
+      (List.range cols).foldl (fun (st : Option (List Col)) j =>
+        if i < j then
+          st.bind (fun st =>
+            (P i j).map (fun p =>
+              let st := mulUpdCol st (colIdx cols i 0 + j) (fun _ => p)
+              let st := mulUpdCol st (colIdx cols i 0 + j) (fun r => vecSubAssignW w64 r (diag.getD i []))
+              mulUpdCol st (colIdx cols i 0 + j) (fun r => vecSubAssignW w64 r (diag.getD j []))))
+        else st) st) (some st0))
+
 /-- **`glwe_tensor_apply`** / **`glwe_tensor_apply_add_assign`**: `res0` is the prior content of the
 tensor (`cols(cols+1)/2` columns of `resSize` limbs; only read by the accumulate form). -/
 def tensorApply (acc big128 : Bool) (n resBase2k resSize cnvOffset base2k : Nat) (a : List Col) (aK : Nat)
@@ -77,20 +108,12 @@ def tensorApply (acc big128 : Bool) (n resBase2k resSize cnvOffset base2k : Nat)
   let bSize := (b.getD 0 []).length
   let aP := prepAll n (msbMaskBottomLimb base2k aK) a
   let bP := prepAll n (msbMaskBottomLimb base2k bK) b
-  let (hi, lo) := cnvOffsetSplit base2k cnvOffset
-  let dftSize := limbBoundWithOffset (aSize + bSize - hi) resSize resBase2k base2k lo
-  let st1 := (List.range cols).foldl (fun (st : Option (List Col)) i =>
-    st.bind (fun st =>
-      (cnvNorm big128 n resBase2k resSize base2k dftSize hi lo (aP.getD i []) (bP.getD i [])).map
-        (fun tmp => tensorDiagStep acc n cols resSize tmp st i))) (some res0)
-  (List.range cols).foldl (fun (st : Option (List Col)) i =>
-    (List.range cols).foldl (fun (st : Option (List Col)) j =>
-      if i < j then
-        st.bind (fun st =>
-          (cnvNorm big128 n resBase2k resSize base2k dftSize hi lo
-              (Hal.colAdd n (aP.getD i []) (aP.getD j [])) (Hal.colAdd n (bP.getD i []) (bP.getD j []))).map
-            (fun tmp => mulUpdCol st (colIdx cols i 0 + j) (fun r => vecAddAssignW w64 r tmp)))
-      else st) st) st1
+  let hl := cnvOffsetSplit base2k cnvOffset
+  let dftSize := limbBoundWithOffset (aSize + bSize - hl.1) resSize resBase2k base2k hl.2
+  tensorApplyCore acc n cols resSize
+    (fun i => cnvNorm big128 n resBase2k resSize base2k dftSize hl.1 hl.2 (aP.getD i []) (bP.getD i []))
+    (fun i j => cnvNorm big128 n resBase2k resSize base2k dftSize hl.1 hl.2
+      (Hal.colAdd n (aP.getD i []) (aP.getD j [])) (Hal.colAdd n (bP.getD i []) (bP.getD j []))) res0
 
 /-- **`glwe_tensor_square_apply`** (`cnv_prepare_self`: both prepared vectors come from `a`) -/
 def tensorSquare (big128 : Bool) (n resBase2k resSize cnvOffset base2k : Nat) (a : List Col) (aK : Nat)
@@ -98,25 +121,12 @@ def tensorSquare (big128 : Bool) (n resBase2k resSize cnvOffset base2k : Nat) (a
   let cols := a.length
   let aSize := (a.getD 0 []).length
   let aP := prepAll n (msbMaskBottomLimb base2k aK) a
-  let (hi, lo) := cnvOffsetSplit base2k cnvOffset
-  let dftSize := limbBoundWithOffset (2 * aSize - hi) resSize resBase2k base2k lo
-  -- diag_terms + copies
-  let d := (List.range cols).mapM (fun i =>
-    cnvNorm big128 n resBase2k resSize base2k dftSize hi lo (aP.getD i []) (aP.getD i []))
-  d.bind (fun diag =>
-    let st0 := (List.range cols).foldl (fun st i =>
-      mulUpdCol st (colIdx cols i 0 + i) (fun _ => vecCopy n resSize (diag.getD i []))) res0
-    (List.range cols).foldl (fun (st : Option (List Col)) i =>
-      (List.range cols).foldl (fun (st : Option (List Col)) j =>
-        if i < j then
-          st.bind (fun st =>
-            (cnvNorm big128 n resBase2k resSize base2k dftSize hi lo
-                (Hal.colAdd n (aP.getD i []) (aP.getD j [])) (Hal.colAdd n (aP.getD i []) (aP.getD j []))).map
-              (fun p =>
-                let st := mulUpdCol st (colIdx cols i 0 + j) (fun _ => p)
-                let st := mulUpdCol st (colIdx cols i 0 + j) (fun r => vecSubAssignW w64 r (diag.getD i []))
-                mulUpdCol st (colIdx cols i 0 + j) (fun r => vecSubAssignW w64 r (diag.getD j []))))
-        else st) st) (some st0))
+  let hl := cnvOffsetSplit base2k cnvOffset
+  let dftSize := limbBoundWithOffset (2 * aSize - hl.1) resSize resBase2k base2k hl.2
+  tensorSquareCore n cols resSize
+    (fun i => cnvNorm big128 n resBase2k resSize base2k dftSize hl.1 hl.2 (aP.getD i []) (aP.getD i []))
+    (fun i j => cnvNorm big128 n resBase2k resSize base2k dftSize hl.1 hl.2
+      (Hal.colAdd n (aP.getD i []) (aP.getD j [])) (Hal.colAdd n (aP.getD i []) (aP.getD j []))) res0
 
 /-- **`glwe_mul_plain`** (and `_assign` with `a = res`, `resBase2k = base2k`): `b` is the single
 plaintext column -/
@@ -211,9 +221,10 @@ def relinearize (big128 : Bool) (n resBase2k resSize : Nat) (a : List Col) (aBas
     else some (Hal.dftApplyCol n 1 0 aDftSize (a.getD (cols + i) [])))
   aD.bind (fun aD =>
     let resBig := gglweProductDft aD g tskSize res0
-    -- NB the Rust tests `res_base2k == key_base2k` (not `a_base2k == key_base2k`) before adding `a` unconverted
+    -- `if a_base2k == key_base2k`: res_big is in the key radix, the tensor's first columns are added as they
+    -- are only if the tensor is in that radix too (before the repair the Rust tested `res_base2k`)
     let added : Option (List Col) := (List.range cols).mapM (fun i =>
-      if resBase2k = g.base2k then some (bigAddSmallAssign big128 (resBig.getD i []) (a.getD i []))
+      if aBase2k = g.base2k then some (bigAddSmallAssign big128 (resBig.getD i []) (a.getD i []))
       else (normalizeCol? g.base2k aDftSize 0 (a.getD i []) aBase2k n).map
         (fun c => bigAddSmallAssign big128 (resBig.getD i []) c))
     added.bind (fun xs => xs.mapM (fun c => bigNormalizeOff big128 n resBase2k resSize 0 c g.base2k)))
